@@ -98,7 +98,9 @@ type c04RealDef struct {
 
 func c04GenReal(rng *verifkit.Rand) c04RealDef {
 	fl := []string{"svc"}
-	switch rng.Intn(8) {
+	switch rng.Intn(9) {
+	case 8:
+		return c04RealDef{"windowedthroughput", &config.V2SamplerChoice{WindowedThroughputSampler: &config.WindowedThroughputSamplerConfig{GoalThroughputPerSec: verifkit.Pick(rng, 1, 5, 100), FieldList: fl}}}
 	case 0:
 		return c04RealDef{"deterministic-1", &config.V2SamplerChoice{DeterministicSampler: &config.DeterministicSamplerConfig{SampleRate: 1}}}
 	case 1:
